@@ -102,13 +102,13 @@ fn valid_zone(c: &BTreeSet<MRec>) -> bool {
             return false;
         }
         if cuts.contains(n) {
-            if !ts.iter().all(|t| ["NS", "DS", "A"].contains(t)) || n[0] == vec![STAR] {
+            if !ts.iter().all(|t| ["NS", "DS", "A", "AAAA"].contains(t)) || n[0] == vec![STAR] {
                 return false;
             }
         }
         for cu in &cuts {
             if is_suffix(cu, n) && n.len() > cu.len() {
-                if !ts.iter().all(|t| *t == "A") {
+                if !ts.iter().all(|t| *t == "A" || *t == "AAAA") {
                     return false;
                 }
                 if !c.iter().any(|r| &&r.0 == cu && r.1 == "NS" && &ns_target_m(r.2) == *n) {
@@ -120,8 +120,8 @@ fn valid_zone(c: &BTreeSet<MRec>) -> bool {
     true
 }
 
-const QTYPES: [&str; 7] = ["NS", "A", "CNAME", "DS", "TXT", "ANY", "SOA"];
-const TYPES: [&str; 6] = ["SOA", "NS", "A", "CNAME", "DS", "TXT"];
+const QTYPES: [&str; 8] = ["NS", "A", "AAAA", "CNAME", "DS", "TXT", "ANY", "SOA"];
+const TYPES: [&str; 7] = ["SOA", "NS", "A", "AAAA", "CNAME", "DS", "TXT"];
 
 fn query_all(h: &ZoneHarness, reader: Option<&str>, qn: &MName) -> Value {
     let q = jname(qn);
@@ -139,8 +139,9 @@ fn pick_rec(rng: &mut Rng, uni: &[MName]) -> MRec {
         let k = rng.pick(uni).clone();
         if k.len() == 3 && rng.chance(1, 2) { k[1..].to_vec() } else { k }
     };
-    let t = match rng.below(10) {
+    let t = match rng.below(11) {
         0..=3 => "A",
+        10 => "AAAA",
         4..=5 => "TXT",
         6..=7 => "NS",
         8 => "CNAME",
@@ -174,7 +175,15 @@ fn run_seq(path: &str, seed: u64, n_ops: u64) {
     let mut planned: Vec<MRec> = vec![];
     if seed % 4 != 3 {
         planned.push((vec![vec![LA]], "NS".into(), 1));
-        planned.push((vec![vec![LA], vec![LA]], "A".into(), 1 + rng.below(3)));
+        // a.a. is dual-stack in most zones; a second server b. with one family
+        if rng.chance(3, 4) {
+            planned.push((vec![vec![LA], vec![LA]], "A".into(), 1 + rng.below(3)));
+        }
+        planned.push((vec![vec![LA], vec![LA]], "AAAA".into(), 1 + rng.below(3)));
+        if rng.chance(1, 2) {
+            planned.push((vec![vec![LA]], "NS".into(), 3));
+            planned.push((vec![vec![LB]], (if rng.chance(1, 2) { "A" } else { "AAAA" }).into(), 1));
+        }
         if rng.chance(1, 2) {
             planned.push((vec![vec![LA]], "DS".into(), 1));
         }
